@@ -448,6 +448,11 @@ class Trim(Stream):
             if ps and rng.random() < 0.1:
                 ps[0] = 0
             ln = (max(ps + [0]) // 10 + rng.randint(0, 500)) * 10
+            r2 = rng.random()
+            if r2 < 0.25:
+                ln = max(ps + [0]) // 10 * 10                 # end marker = truncated coordinate of the last label (span + 1 can exceed it)
+            elif r2 < 0.35:
+                ln = rng.randint(0, max(ps + [10])) // 10 * 10  # a length shorter than the labelled span: trim must not look at it
             out.append(dict(m=[rng.randint(1, 10 ** 6), ln, ps, rng.choice([0, 0, 3, -2, 17]), kind]))
         return out
 
